@@ -212,7 +212,8 @@ def composition_rows(tier):
     hbar_m = model.vdiv(model.vmul(model.mag_int(662607015), ten(-39)), model.vmul(model.mag_int(2), model.MAG_PI))
     consts = [("c", "au::SPEED_OF_LIGHT", model.d(L=1, T=-1), model.mag_int(299792458)),
               ("hbar", "au::REDUCED_PLANCK_CONSTANT", model.vmul(J_DIM, model.d(T=1)), hbar_m),
-              ("r57", "au::make_constant(au::Meters{} / au::Seconds{} * au::mag<5>() / au::mag<7>())", model.d(L=1, T=-1), model.mag_ratio(5, 7))]
+              ("r57", "au::make_constant(au::Meters{} / au::Seconds{} * au::mag<5>() / au::mag<7>())", model.d(L=1, T=-1), model.mag_ratio(5, 7)),
+              ("cgen", "au::make_constant(au::Meters{} / au::Seconds{} * au::mag<299792458>())", model.d(L=1, T=-1), model.mag_int(299792458))]
     nums = [("3.5f", "float", True), ("7", "int", False), ("uint8_t{200}", "uint8_t", False), ("int8_t{-3}", "int8_t", False),
             ("int16_t{-32768}", "int16_t", False), ("std::numeric_limits<uint64_t>::max()", "uint64_t", False), ("-0.0", "double", True),
             ("std::numeric_limits<double>::denorm_min()", "double", True), ("std::numeric_limits<float>::infinity()", "float", True),
@@ -250,6 +251,13 @@ def composition_rows(tier):
         wr += [("%s*mag" % cn, "%s * au::mag<3>()" % ce, "Constant", cd_, model.vmul(cm_, three)), ("mag*%s" % cn, "au::mag<3>() * %s" % ce, "Constant", cd_, model.vmul(cm_, three)),
                ("%s/mag" % cn, "%s / au::mag<3>()" % ce, "Constant", cd_, model.vdiv(cm_, three)), ("mag/%s" % cn, "au::mag<3>() / %s" % ce, "Constant", model.vinv(cd_), model.vdiv(three, cm_)),
                ("%s*pi" % cn, "%s * au::Magnitude<au::Pi>{}" % ce, "Constant", cd_, model.vmul(cm_, model.MAG_PI)),
+               # magnitudes equal to one, in several spellings, and a scaling that is undone: the constant must stay what it was
+               ("%s*mag1" % cn, "%s * au::mag<1>()" % ce, "Constant", cd_, cm_), ("mag1*%s" % cn, "au::mag<1>() * %s" % ce, "Constant", cd_, cm_),
+               ("%s/mag1" % cn, "%s / au::mag<1>()" % ce, "Constant", cd_, cm_), ("%s*ONE" % cn, "%s * au::ONE" % ce, "Constant", cd_, cm_),
+               ("%s*7/7" % cn, "%s * (au::mag<7>() / au::mag<7>())" % ce, "Constant", cd_, cm_),
+               ("%s*pow0" % cn, "%s * au::pow<0>(au::mag<10>())" % ce, "Constant", cd_, cm_),
+               ("%s*3/3" % cn, "(%s * au::mag<3>()) / au::mag<3>()" % ce, "Constant", cd_, cm_),
+               ("mag1/%s" % cn, "au::mag<1>() / %s" % ce, "Constant", model.vinv(cd_), model.vinv(cm_)),
                ("%s*maker" % cn, "%s * au::seconds" % ce, "QuantityMaker", model.vmul(cd_, model.d(T=1)), cm_), ("maker*%s" % cn, "au::seconds * %s" % ce, "QuantityMaker", model.vmul(cd_, model.d(T=1)), cm_),
                ("%s/maker" % cn, "%s / au::meters" % ce, "QuantityMaker", model.vdiv(cd_, model.d(L=1)), cm_), ("maker/%s" % cn, "au::meters / %s" % ce, "QuantityMaker", model.vdiv(model.d(L=1), cd_), model.vinv(cm_)),
                ("%s*kilomaker" % cn, "%s * au::kilo(au::meters)" % ce, "QuantityMaker", model.vmul(cd_, model.d(L=1)), model.vmul(cm_, model.mag_int(1000))),
